@@ -537,6 +537,13 @@ func (i *PostingsIterator) nextDocNumAtOrAfter(atOrAfter uint64) (docNum uint64,
 		return 0, false, nil
 	}
 
+	if atOrAfter > math.MaxUint32 {
+		// document numbers are 32 bit: nothing is at or after the target,
+		// and the uint32 conversions below would wrap it around
+		i.Actual = nil
+		return 0, false, nil
+	}
+
 	if i.postings == nil || i.postings.postings == i.ActualBM {
 		return i.nextDocNumAtOrAfterClean(atOrAfter)
 	}
